@@ -241,6 +241,10 @@ pub(crate) fn decompress(x: &[u8], n: usize) -> Option<Vec<i16>> {
             return None;
         }
         high_bits += 1;
+        // same range rule as for the other coefficients
+        if high_bits == 95 {
+            return None;
+        }
     }
 
     // test if coefficient encoded properly
